@@ -99,6 +99,10 @@ def check(case):
     et, ep = np.array(ff.e_theta).T, np.array(ff.e_phi).T
     gain = np.array(ff.gain)
     zen, azi = np.array(ff.zen).T, np.array(ff.azi).T
+    if not (et.shape == ep.shape == zen.shape == azi.shape == gain.shape[:2]):
+        return Result(fails=[('far-field:array-shapes', 'e_theta %s, e_phi %s, zen %s, azi %s, gain %s for %d x %d directions'
+                              % (np.shape(ff.e_theta), np.shape(ff.e_phi), np.shape(ff.zen), np.shape(ff.azi), gain.shape, th[2], ph[2]))],
+                      nontrivial=True, labels=labels)
     P = pw if pw is not None else m.power
     scale = math.sqrt(P / m.power) / dist
     # (1), (2) reference radiation integral
